@@ -80,16 +80,25 @@ class UserUpdateSegmentation(ActionGroup):
                     time_key: time,
                     tracklet_key: current_track_id,
                 }
-                self.actions.append(
-                    UserAddNode(
-                        tracks,
-                        new_value,
-                        attributes=attrs,
-                        pixels=all_pixels,
-                        force=force,
-                        _top_level=False,
+                try:
+                    self.actions.append(
+                        UserAddNode(
+                            tracks,
+                            new_value,
+                            attributes=attrs,
+                            pixels=all_pixels,
+                            force=force,
+                            _top_level=False,
+                        )
                     )
-                )
+                except Exception:
+                    # The update is refused: revert the updates of the overwritten nodes
+                    # that were already applied, so that the tracks are unchanged, and
+                    # leave the segmentation as the caller painted it.
+                    for action in reversed(self.actions):
+                        action.inverse()
+                    self.tracks.set_pixels(all_pixels, new_value)
+                    raise
                 node_to_select = new_value
 
         self.tracks.action_history.add_new_action(self)
